@@ -144,7 +144,7 @@ class ScopeMetrics:
     ) -> None:
         assert not self._completed.done(), "Can't record using completed metrics scope"  # nosec: B101
         metric_type: type[Metric] = type(metric)
-        if current := self._metrics.get(metric_type):
+        if (current := self._metrics.get(metric_type)) is not None:  # metric might be falsy
             self._metrics[metric_type] = merge(cast(Metric, current), metric)
 
         else:
